@@ -4,14 +4,14 @@
 (* (TokenMatch.tla).  Elements are drawn from a pool: every alternative     *)
 (* list of length 1 and 2 over the 15 commands and 20 literals (with and    *)
 (* without the optional marker), a seeded sample of lists of length 3,      *)
-(* every negation of a literal, a few character sets.  Patterns: every      *)
-(* one-element pattern of the pool, seeded samples of length 2, 3, 4, and   *)
+(* every negation of a literal, a few character sets.  Patterns: the        *)
+(* one-element patterns of the pool, seeded samples of length 2, 3, 4, and  *)
 (* plain-word patterns for simpleMatch.  Every 17th is used with findmatch. *)
 (* Shared by TokenMatchPatterns (writes them out) and TokenMatchGen.        *)
 (*                                                                         *)
 (* IOEnv.PARAMS: one line [seed, shard, nshards, ncore, reps, nons, n3alt,  *)
-(*               n2, n3, n4, nsimple, base (pid of generated pattern g is   *)
-(*               base + g)]                                                 *)
+(*               s1, n2, n3, n4, nsimple, base (pid of generated pattern g  *)
+(*               is base + g)]                                              *)
 (***************************************************************************)
 EXTENDS TokenMatch, Json, IOUtils, SequencesExt
 
@@ -40,17 +40,20 @@ ST == [i \in 1..Len(Sets) |-> SetE(Sets[i])]
 Pool == A1 \o A2 \o A3 \o NG \o ST
 M == Len(Pool)
 
-\* all generated patterns, numbered 1..NGen: all one-element patterns, then samples of length 2, 3, 4, then simple patterns
-NGen == M + P.n2 + P.n3 + P.n4 + P.nsimple
+\* all generated patterns, numbered 1..NGen: one-element patterns (every s1-th pool element, all of them for s1 = 1),
+\* then samples of length 2, 3, 4, then simple patterns
+NOne == (M - (P.seed % P.s1)) \div P.s1
+One(j) == Pool[(j - 1) * P.s1 + (P.seed % P.s1) + 1]
+NGen == NOne + P.n2 + P.n3 + P.n4 + P.nsimple
 GenPattern(g) ==
-  IF g <= M THEN <<Pool[g]>>
-  ELSE IF g <= M + P.n2 THEN LET j == g - M IN <<Pool[H(j, 1, M)], Pool[H(j, 2, M)]>>
-  ELSE IF g <= M + P.n2 + P.n3 THEN LET j == g - M - P.n2 IN <<Pool[H(j, 2, M)], Pool[H(j, 3, M)], Pool[H(j, 1, M)]>>
-  ELSE IF g <= M + P.n2 + P.n3 + P.n4 THEN LET j == g - M - P.n2 - P.n3 IN <<Pool[H(j, 4, M)], Pool[H(j, 1, M)], Pool[H(j, 3, M)], Pool[H(j, 2, M)]>>
-  ELSE LET j == g - M - P.n2 - P.n3 - P.n4
+  IF g <= NOne THEN <<One(g)>>
+  ELSE IF g <= NOne + P.n2 THEN LET j == g - NOne IN <<Pool[H(j, 1, M)], Pool[H(j, 2, M)]>>
+  ELSE IF g <= NOne + P.n2 + P.n3 THEN LET j == g - NOne - P.n2 IN <<Pool[H(j, 2, M)], Pool[H(j, 3, M)], Pool[H(j, 1, M)]>>
+  ELSE IF g <= NOne + P.n2 + P.n3 + P.n4 THEN LET j == g - NOne - P.n2 - P.n3 IN <<Pool[H(j, 4, M)], Pool[H(j, 1, M)], Pool[H(j, 3, M)], Pool[H(j, 2, M)]>>
+  ELSE LET j == g - NOne - P.n2 - P.n3 - P.n4
            n == (j % 3) + 1
        IN [k \in 1..n |-> AltE(<<Lit(Lits[H(j, k, Len(Lits))])>>, FALSE)]
-GenIsSimple(g) == g > M + P.n2 + P.n3 + P.n4
+GenIsSimple(g) == g > NOne + P.n2 + P.n3 + P.n4
 GenKind(g) == IF GenIsSimple(g) THEN (IF g % 5 = 0 THEN "findsimplematch" ELSE "simpleMatch")
               ELSE IF g % 17 = 0 THEN "findmatch" ELSE "Match"
 
